@@ -24,6 +24,7 @@ pairs `<present 0|1> <value>`.
                                                            OnPodAdd of an object with a node name (fail-over add) or an
                                                            ordinary OnPodUpdate (old and new object bound): filed + assigned
   quotadel <name>                                          OnQuotaDelete of a group without child groups
+  podflip <id>                                             OnPodUpdate of a held pod: only the preemptible label flips
   gate <0|1>                                               feature gate ElasticQuotaGuaranteeUsage (default 0): quota objects
                                                            read from now on yield allow-lent = false (declaredLent)
 Output: `v <status code>` after `att`; after every other op one line per group sorted by name:
@@ -185,6 +186,15 @@ def stepLine (s : DState) (line : String) : DState :=
       match findP s.st.pods i with
       | some p =>
         if p.ghost || (findQ s.st.quotas (homeOf s.st p)).isNone then bad s else after s (podAddBound s.st i)
+      | none => bad s
+    | none => bad s
+  | ["podflip", i] =>
+    match nat? i with
+    | some i =>
+      match findP s.st.pods i with
+      | some p =>
+        if !p.inCache || p.ghost || homeOf s.st p ≠ p.quota || (findQ s.st.quotas p.quota).isNone then bad s
+        else after s (podFlip s.st i)
       | none => bad s
     | none => bad s
   | ["quotadel", n] =>
